@@ -24,7 +24,7 @@ ASSUMPTIONS = [
     "no random sentences beyond the bound are drawn (that would be sampling)",
 ]
 BOUNDS = {"quick": {"dt_steps": 3, "pairs": "same-block"}, "thorough": {"dt_steps": 4, "pairs": "same-block+triples"}}
-LITERALS = ('""', '"a"', '"\\""', '"\\\\"', '"\\x41"', '"A"', '"a\nb"', '"# ; { }"', '"a b"', '"a  b"', '"a\tb"', '" a"', '"{\n\n}"', '"\n\n"', '";\n\n{\n"', '"}\n\n\n{ ;"', '"don\\\'t"', '"\\\\\'"', '"\'"')
+LITERALS = ('""', '"a"', '"\\""', '"\\\\"', '"\\x41"', '"A"', '"a\nb"', '"# ; { }"', '"a b"', '"a  b"', '"a\tb"', '" a"', '"{\n\n}"', '"\n\n"', '";\n\n{\n"', '"}\n\n\n{ ;"', '"don\\\'t"', '"\\\\\'"', '"\'"', '"\u00fc"', '"\u00e9\u00ff\u00a0x"', '"\u03a9"')
 DT_POSITIONS = [
     ("http_stager", "client", "http_options", "output"), ("http_stager", "server", "http_options", "output"),
     ("http_get", "client", "http_client", "metadata"), ("http_get", "client", "http_client", "id"), ("http_get", "client", "http_client", "output"), ("http_get", "server", "http_options", "output"),
@@ -119,6 +119,43 @@ def roundtrip(cp, sent, style=0):
     return None
 
 
+_TMP = {}
+
+
+def path_entry(acc, cp, sent, label):
+    """The file entry point: the same text stored in a file (written with the platform's default text encoding, which
+    is what from_path reads with) gives the same tree as from_text, and its regenerated text the same tokens."""
+    import os
+    import tempfile
+
+    toks = RP.sentence_tokens(sent)
+    src = RP.render(toks, 1)
+    if "dir" not in _TMP:
+        _TMP["dir"] = tempfile.mkdtemp(prefix="vmc_c10_")
+    path = os.path.join(_TMP["dir"], "p.profile")
+    try:
+        with open(path, "w") as f:
+            f.write(src)
+    except UnicodeEncodeError:
+        return  # not representable in this platform's default encoding: no such file can exist
+    acc.transitions += 1
+    bad = None
+    try:
+        p1 = cp.C2Profile.from_text(src)
+        pf = cp.C2Profile.from_path(path)
+        if pf.tree != p1.tree:
+            bad = ("C10/from_path/tree-differs-from-from_text", str(p1.tree)[:300], str(pf.tree)[:300])
+        elif RP.tokenize(pf.as_text()) != toks:
+            bad = ("C10/from_path/tokens", toks, RP.tokenize(pf.as_text()))
+    except Exception as e:  # noqa
+        bad = ("C10/from_path/exception", toks, f"{type(e).__name__}: {str(e)[:200]}")
+    finally:
+        os.unlink(path)
+    acc.case((label, "path", tuple(toks)), nontrivial=True, outcome=bad[0] if bad else len(toks))
+    if bad:
+        acc.fail(bad[0], {"kind": "path", "tokens": toks}, bad[1], bad[2])
+
+
 def run_sentence(acc, cp, sent, label, style=0):
     acc.transitions += 1
     bad = roundtrip(cp, sent, style)
@@ -143,10 +180,15 @@ def chunk_single(chunk, acc):
             for lit in LITERALS:
                 lits = (lit,) if f[3] == 1 else (lit, LITERALS[(LITERALS.index(lit) + 3) % len(LITERALS)])
                 run_sentence(acc, cp, wrap(kind, mk(f, lits)), "single", style=0)
+                path_entry(acc, cp, wrap(kind, mk(f, lits)), "single")
             run_sentence(acc, cp, wrap(kind, mk(f)), "single", style=1)
         else:
             run_sentence(acc, cp, wrap(kind, mk(f)), "single", style=0)
             run_sentence(acc, cp, wrap(kind, mk(f)), "single", style=1)
+    if "dir" in _TMP:
+        import os
+
+        os.rmdir(_TMP.pop("dir"))
     acc.sample({"block_kind": kind, "sentence": RP.sentence_tokens(wrap(kind, mk(forms[0])))})
 
 
@@ -332,6 +374,25 @@ def replay(case):
 
     cp = profile_env.install(False)
     toks = case["tokens"]
+    if case.get("kind") == "path":
+        import os
+        import tempfile
+
+        src = RP.render(toks, 1)
+        d = tempfile.mkdtemp(prefix="vmc_c10_")
+        path = os.path.join(d, "p.profile")
+        try:
+            with open(path, "w") as f:
+                f.write(src)
+            pf = cp.C2Profile.from_path(path)
+            ok = pf.tree == cp.C2Profile.from_text(src).tree and RP.tokenize(pf.as_text()) == toks
+            return {"ok": ok, "expected": toks, "observed": RP.tokenize(pf.as_text())}
+        except Exception as e:  # noqa
+            return {"ok": False, "expected": toks, "observed": f"{type(e).__name__}: {str(e)[:300]}"}
+        finally:
+            if os.path.exists(path):
+                os.unlink(path)
+            os.rmdir(d)
     src = RP.render(toks, case.get("style", 0))
     try:
         p1 = cp.C2Profile.from_text(src)
